@@ -259,6 +259,8 @@ type preparedFix struct {
 	hash   []byte
 	view   uint64
 	blk    *spi.Blk
+	pview  uint64 // what the PREPAREs were signed over (usually the proposal's view and hash; sometimes not: the factory
+	phash  []byte // copies what it is given, consistency is the protocol's business)
 }
 
 func (c *c20) prepared(inst, h uint64, nPrep int) *preparedFix {
@@ -272,7 +274,10 @@ func (c *c20) prepared(inst, h uint64, nPrep int) *preparedFix {
 	}
 	fl, _ := c.factory(inst, leader, 1)
 	ppm := fl.CreatePreprepareMessage(primitives.BlockHeight(h), primitives.View(view), blk, hash)
-	fix := &preparedFix{leader: leader, ppSig: ppm.Content().Sender().Signature(), hash: hash, view: view, blk: blk}
+	fix := &preparedFix{leader: leader, ppSig: ppm.Content().Sender().Signature(), hash: hash, view: view, blk: blk, pview: view, phash: hash}
+	if nPrep > 0 && c.rng.Intn(4) == 0 {
+		fix.pview, fix.phash = c.u64(), c.bytesN(64)
+	}
 	var pms []*interfaces.PrepareMessage
 	for i := 0; i < nPrep; i++ {
 		id := append(c.bytesN(30), byte(i))
@@ -282,7 +287,7 @@ func (c *c20) prepared(inst, h uint64, nPrep int) *preparedFix {
 			id[0] = byte(i)
 		}
 		fp, _ := c.factory(inst, id, 1)
-		pm := fp.CreatePrepareMessage(primitives.BlockHeight(h), primitives.View(view), hash)
+		pm := fp.CreatePrepareMessage(primitives.BlockHeight(h), primitives.View(fix.pview), fix.phash)
 		pms = append(pms, pm)
 		fix.ids = append(fix.ids, id)
 		fix.sigs = append(fix.sigs, pm.Content().Sender().Signature())
@@ -308,7 +313,7 @@ func (c *c20) checkProof(what string, p *ref.Proof, fix *preparedFix, inst, h ui
 	if len(fix.ids) == 0 {
 		return
 	}
-	if p.PRef == nil || p.PRef.Type != ref.P || p.PRef.Inst != inst || p.PRef.H != h || p.PRef.V != fix.view || !bytes.Equal(p.PRef.Hash, fix.hash) {
+	if p.PRef == nil || p.PRef.Type != ref.P || p.PRef.Inst != inst || p.PRef.H != h || p.PRef.V != fix.pview || !bytes.Equal(p.PRef.Hash, fix.phash) {
 		c.bad("nested-proof-prepare-ref-changed", what)
 		return
 	}
@@ -431,7 +436,22 @@ func (c *c20) one(i int) {
 		}
 		blkOut = blk
 		ppb := f.CreatePreprepareMessageContentBuilder(H, V, blkOut, hash)
+		var ppmFirst *interfaces.PreprepareMessage
+		switch c.rng.Intn(4) {
+		case 0: // the factory builds other messages between the proposal's content and the NEW_VIEW that embeds it
+			f.CreatePrepareMessage(H, primitives.View(c.u64()), c.bytesN(40))
+		case 1:
+			f.CreateCommitMessage(H, primitives.View(c.u64()), c.bytesN(40))
+		case 2: // ... or the standalone proposal from the same content first
+			ppmFirst = f.CreatePreprepareMessageFromContentBuilder(ppb, blkOut)
+			f.CreatePreprepareMessage(H, primitives.View(c.u64()), blkOut, c.bytesN(40))
+		}
 		nvm := f.CreateNewViewMessage(H, V, ppb, interfaces.ExtractConfirmationsFromViewChangeMessages(vcms), blkOut)
+		if ppmFirst != nil {
+			if dd, ok := ref.Decode(ppmFirst.ToConsensusRawMessage()); !ok || km.VerifyConsensusMessage(H, dd.HdrRaw, dd.Sender.Builder().Build()) != nil {
+				c.bad("signature-no-longer-verifies", "PREPREPARE built from a content builder, after later messages of the same factory")
+			}
+		}
 		d := c.roundTrip("NEW_VIEW", nvm, km, ref.NV, inst, h, v, me, blkOut)
 		if d != nil {
 			if len(d.Votes) != nv {
